@@ -117,6 +117,36 @@ func hasAlgorithm(t ast.Expr) bool {
 var codecTypeSpecs = map[string]*ast.TypeSpec{}
 
 func lockStmts(fd *ast.FuncDecl) []string {
+	le, body := lockPrepare(fd)
+	toks, ok := le.block(body, true)
+	if ok {
+		toks = normaliseUnlock(toks)
+	} else {
+		toks = append(toks, "opaque")
+	}
+	for _, t := range toks {
+		if t == "opaque" {
+			// not one of the known statement shapes: execute the body path by path instead
+			sym := lockSym(fd, func() (*lockEnv, []ast.Stmt, bool) {
+				le, body := lockPrepare(fd)
+				if inner, g := le.guard(body); g {
+					body = inner
+				} else if le.svc != "" {
+					return nil, nil, false // Registry without a recognisable type-assertion guard
+				}
+				return le, body, true
+			})
+			if len(sym) > 0 && sym[len(sym)-1] != "opaque" {
+				return sym
+			}
+			return toks
+		}
+	}
+	return toks
+}
+
+// lockPrepare resolves delegation wrappers and the parameters' roles; it returns a fresh environment and the body to read
+func lockPrepare(fd *ast.FuncDecl) (*lockEnv, []ast.Stmt) {
 	le := &lockEnv{ctx: map[string]bool{ctxGlobal: true}, named: map[string]bool{}, freshMap: map[string]bool{}}
 	body := fd.Body.List
 	params := func(f *ast.FuncDecl) []string {
@@ -168,11 +198,7 @@ func lockStmts(fd *ast.FuncDecl) []string {
 			le.key = ps[0]
 		}
 	}
-	toks, ok := le.block(body, true)
-	if !ok {
-		return append(toks, "opaque")
-	}
-	return normaliseUnlock(toks)
+	return le, body
 }
 
 // the type-assertion guard of Registry, in its three spellings; returns the guarded statements
